@@ -591,7 +591,11 @@ func TestPurity(t *testing.T) {
 				st.Op = op
 				if v, ok := valid("arg"); ok && rapid.IntRange(0, 3).Draw(rt, "argValid") != 0 {
 					if rapid.IntRange(0, 3).Draw(rt, "collide") == 0 {
-						if cv, did := addCollision(v); did {
+						collide := addCollision
+						if rapid.Bool().Draw(rt, "textCollision") {
+							collide = addTextCollision
+						}
+						if cv, did := collide(v); did {
 							v = cv
 							ev.Class("arg_with_colliding_keys", 1)
 						}
@@ -668,4 +672,63 @@ func TestPurity(t *testing.T) {
 			ev.Sample("history", h)
 		}
 	})
+}
+
+// addTextCollision is addCollision for concretely keyed maps: every key of an integer-keyed map is written as a
+// string and one entry is added under another spelling of an existing key ("7" and "07"): a map[string]any whose keys
+// are all distinct as strings but not as the integers they denote.
+func addTextCollision(v val.V) (val.V, bool) {
+	if len(v.T) >= 3 && v.T[:3] == "map" && len(v.M) >= 1 {
+		allInt := true
+		for _, e := range v.M {
+			switch e.K.T {
+			case "int64", "int", "uint64":
+			case "string":
+				if _, err := fmt.Sscanf(e.K.S, "%d", new(int64)); err != nil || fmt.Sprint(mustInt(e.K.S)) != e.K.S {
+					allInt = false
+				}
+			default:
+				allInt = false
+			}
+		}
+		if allInt {
+			c := v
+			c.T = "map[string]any"
+			c.M = nil
+			for _, e := range v.M {
+				c.M = append(c.M, val.KV{K: val.Str(e.K.S), V: e.V})
+			}
+			first := v.M[0].K.S
+			alt := "0" + first
+			if len(first) > 0 && first[0] == '-' {
+				alt = "-0" + first[1:]
+			}
+			other := v.M[len(v.M)-1].V
+			if len(v.M) == 1 {
+				other = val.Nil()
+			}
+			c.M = append(c.M, val.KV{K: val.Str(alt), V: other})
+			return c, true
+		}
+	}
+	for i := range v.M {
+		if n, ok := addTextCollision(v.M[i].V); ok {
+			c := v
+			c.M = append([]val.KV(nil), v.M...)
+			c.M[i].V = n
+			return c, true
+		}
+	}
+	for i := range v.L {
+		if n, ok := addTextCollision(v.L[i]); ok {
+			c := v
+			c.L = append([]val.V(nil), v.L...)
+			c.L[i] = n
+			if c.T != "[]any" {
+				c.T = "[]any"
+			}
+			return c, true
+		}
+	}
+	return v, false
 }
